@@ -8,3 +8,9 @@ open WebPkg.C03
 #print axioms offsets_accounting
 #print axioms read_write
 #print axioms read_write_b2
+#print axioms read_normal
+#print axioms read_write_normal
+#print axioms write_read_fixpoint
+#print axioms read_write_b1_variants
+#print axioms write_refuses_overlapping_variants
+#print axioms write_refuses_incomplete_variants
